@@ -36,6 +36,7 @@ fn registry() -> Vec<(&'static str, RunFn, ReplayFn)> {
         ("C17", props::c17::run, props::c17::replay),
         ("C18", props::c18::run, props::c18::replay),
         ("C19", props::c19::run, props::c19::replay),
+        ("C20", props::c20::run, props::c20::replay),
     ]
 }
 
@@ -137,6 +138,7 @@ fn main() {
         Some("worker") => match args.get(2).map(|s| s.as_str()) {
             Some("c13") => props::c13::worker_main(),
             Some("walk") => isolate::walk_worker_main(),
+            Some("c20") => props::c20::worker_main(),
             other => {
                 eprintln!("unknown worker {:?}", other);
                 std::process::exit(2);
